@@ -11,7 +11,10 @@
     the written value depends on (pred_turnout is the documented exception: it exists for the margin estimand only);
  R5 no closure reading a loop variable is stored beyond its iteration (late binding) anywhere in the package;
  R6 the unit split (which units are fitted / predicted / passed through) reads no row predicate that depends on the list of
-    requested estimands (the margin switch excepted).
+    requested estimands (the margin switch excepted);
+ R7 carried state: a model attribute computed from its own previous value inside a per-level / per-estimand step (memo, accumulator)
+    must not depend on a parameter that varies with the request (level, estimand, aggregate, or anything a caller derives from them,
+    e.g. the conformal training fraction) unless it is stored under that parameter.
 """
 from __future__ import annotations
 
@@ -49,6 +52,7 @@ def check(ctx):
     _split_request_independent(ctx)
     _generators(ctx)
     _column_writes(ctx)
+    _carried_state(ctx)
 
 
 # ---------------------------------------------------------------------------------------------
@@ -86,6 +90,90 @@ def _closure(ctx, cls, name):
                 if isinstance(callee, FuncInfo) and callee.cls is not None and callee.cls in cls.mro():
                     stack.append(callee)
     return out
+
+
+REQUEST_PARAMS = ("alpha", "estimand", "aggregate")
+
+
+def _carried_state(ctx):
+    """R7.carried: a model attribute whose new value is computed FROM ITS OWN PREVIOUS VALUE inside a per-level / per-estimand step
+    (`if self.x is None: self.x = ..`, `self.x = self.x or ..`, an accumulating container) is state carried from one iteration of the
+    client's loops to the next. That is harmless only if what is carried does not depend on what varies between the iterations - the
+    interval level, the estimand, the aggregate, or anything computed from them (the conformal training fraction is a function of the
+    level) - or if it is stored under a key made of those parameters. Parameters are classified through the call sites inside the
+    model family: a parameter is request-dependent if some caller passes it a term that depends on a request-dependent parameter."""
+    repo = ctx.repo
+    SELF_ = ("param", "self")
+    bld = ctx.builder(inline=lambda *a_: False)
+    n_carried = 0
+    for modn, cn in (("elexmodel.models.NonparametricElectionModel", "NonparametricElectionModel"),
+                     ("elexmodel.models.GaussianElectionModel", "GaussianElectionModel"),
+                     ("elexmodel.models.BootstrapElectionModel", "BootstrapElectionModel")):
+        cls = repo.cls(modn, cn)
+        fns = []
+        for step in LOOP_STEPS:
+            for g in _closure(ctx, cls, step):
+                if g not in fns:
+                    fns.append(g)
+        sums = {g: bld.summarize(g, self_cls=cls) for g in fns}
+        varying = {g: {p_ for p_ in g.params if p_ in REQUEST_PARAMS} for g in fns}
+        changed = True
+        while changed:
+            changed = False
+            for g in fns:
+                terms = [t for _, _, t, _ in sums[g].assigns] + [t for _, t, _ in sums[g].effects] + [w[2] for w in sums[g].attr_writes] \
+                    + [t for _, t, _ in sums[g].returns]
+                for t in terms:
+                    for x in ir.walk(t):
+                        if not (x[0] == "call" and x[1][0] == "attr" and x[1][1] == SELF_):
+                            continue
+                        callee = cls.lookup(x[1][2])
+                        if callee not in fns:
+                            continue
+                        try:
+                            bound = ir.bind_args(callee, x[2], x[3], method=True)
+                        except Exception:
+                            continue
+                        for pn, arg in bound.items():
+                            if pn in varying[callee] or not isinstance(arg, tuple):
+                                continue
+                            if any(y[0] == "param" and y[1] in varying[g] for y in ir.walk(arg)):
+                                varying[callee].add(pn)
+                                changed = True
+        for g in fns:
+            for w in sums[g].attr_writes:
+                a, v = w[1], w[2]
+                guarded_by_itself = any(y == ("attr", SELF_, a) for c_, _pol in w[0] if c_[0] != "loop" for y in ir.walk(c_))
+                if not guarded_by_itself and not any(y == ("attr", SELF_, a) for y in ir.walk(v)):
+                    continue  # overwritten from scratch: nothing is carried
+                if v[0] == "setitem" and v[1] == ("attr", SELF_, a):
+                    continue  # a per-key cache `self.a[key] = value`: typestate of those is R2 (keyed / copy / read / scope)
+                n_carried += 1
+                # request parameters the carried value depends on, outside the keys it is stored under
+                keys = set()
+
+                def strip(t):
+                    while t[0] == "setitem":
+                        keys.update(y[1] for y in ir.walk(t[2]) if y[0] == "param")
+                        yield t[3]
+                        t = t[1]
+                    yield t
+
+                deps = set()
+                for part in strip(v):
+                    deps |= {y[1] for y in ir.walk(part) if y[0] == "param" and y[1] in varying[g]}
+                loose = sorted(deps - keys)
+                ok = not loose
+                ctx.ob("C13.R7.carried", f"{cn}|{g.qualname}|self.{a} kept from one call to the next", ok, g.where(),
+                       f"self.{a} carries state across calls, but nothing in it depends on the level / estimand / aggregate of the call "
+                       f"(or it is stored under them: {sorted(keys & varying[g])})" if ok else
+                       f"self.{a} is computed once and kept for later calls, but its value depends on {', '.join(loose)}, which changes with the "
+                       f"requested interval level / estimand: every later level of the same request is computed with the first level's value")
+    ctx.count("C13.R7.carried_attributes", n_carried)
+    # built-in positive example (today no attribute is carried, so the rule would otherwise pass vacuously)
+    probe = ("phi", ("cmp", "is", ("attr", SELF_, "m"), ("const", None)), ("call", ("global", "f"), (("param", "conf_frac"),), ()), ("attr", SELF_, "m"))
+    ctx.selftest("C13.R7.carried", any(y == ("attr", SELF_, "m") for y in ir.walk(probe)) and any(y == ("param", "conf_frac") for y in ir.walk(probe)),
+                 "memo of a value that depends on the training fraction")
 
 
 def _caches(ctx):
